@@ -54,8 +54,14 @@ def profile():
     return p
 
 
-def assign(t, k):
-    """Assignment number k of the value literals of skeleton t -> (term, [values])."""
+INT_BASES = [918273645, 2 ** 31, 2 ** 53, 2 ** 63 - 10 ** 6, 2 ** 64, 2 ** 64 + 2 ** 40, 10 ** 30, 10 ** 19]
+STR_PADS = ["", "", "p" * 300, "q" * 5000, "", "", "", "r" * 70000]
+
+
+def assign(t, k, mag=0):
+    """Assignment number k of the value literals of skeleton t -> (term, [values]).
+    mag > 0: the same, with integers of another magnitude (beyond 32 / 53 / 63 / 64 bits) and
+    padded strings - a backend may treat values it thinks the driver cannot bind differently."""
     n = [0]
     vals = []
 
@@ -66,13 +72,13 @@ def assign(t, k):
         i = n[0] * 7 + k * 131
         kind = x[1]
         if kind == "int":
-            v = str(918273645 + i)
+            v = str(INT_BASES[mag] + i)
             if x[2].startswith("-"):
                 v = "-" + v
         elif kind == "float":
             v = "%d.%d" % (73829164 + i, 25 + k)
         elif kind == "str":
-            v = STR_POOL[(n[0] + k * 3) % len(STR_POOL)] + "#%d" % i
+            v = STR_POOL[(n[0] + k * 3) % len(STR_POOL)] + STR_PADS[mag] + "#%d" % i
         elif kind == "datetime":
             v = "20%02d-07-%02dT1%d:2%d:3%d" % (31 + k, 1 + i % 27, k % 10, n[0] % 10, i % 10)
         elif kind == "date":
@@ -185,8 +191,8 @@ BACKENDS = {
 }
 
 
-def judge(ctx, t, model_name, backend, cls):
-    variants = [assign(t, k) for k in range(3 if ctx.thorough() else 2)]
+def judge(ctx, t, model_name, backend, cls, mag=0):
+    variants = [assign(t, k, mag) for k in range(3 if ctx.thorough() else 2)]
     if not variants[0][1]:
         return
     ctx.count("evaluations")
@@ -215,8 +221,8 @@ def judge(ctx, t, model_name, backend, cls):
     ctx.cls("backend:" + backend)
     for k in T.kinds(t):
         ctx.cls("kind:" + k)
-    case = {"skeleton": to_text(t), "backend": backend, "model": model_name,
-            "filters": [o[0] for o in outs]}
+    case = {"skeleton": to_text(t), "backend": backend, "model": model_name, "mag": mag,
+            "filters": [o[0][:400] for o in outs]}
     keys = findings.binding_triggers(t, backend)
     base_sql = outs[0][2]
     for text, vals, sql, params in outs:
@@ -290,6 +296,24 @@ def run(ctx):
                     for b in ("django", "django-values", "sqla-orm-select", "sqla-core"):
                         judge(ctx, wrap, "T", b, "predicate-operands")
     ctx.cls("predicate-operands")
+    # value magnitudes: every literal position of a few skeletons, integers beyond 32/53/63/64
+    # bits and long strings (a driver refusing to bind a value is "not judged", a statement that
+    # does reach the driver must carry the value as a parameter all the same)
+    b_ = T.ident("b")
+    skels = [("cmp", "lt", a_, T.I(1)), ("cmp", "in", a_, T.lst(T.I(1), T.I(2))), ("cmp", "eq", ("bin", "add", a_, T.I(1)), b_),
+             ("cmp", "eq", ("bin", "mul", T.I(1), a_), T.I(2)), ("cmp", "eq", T.call("length", s_), T.I(1)),
+             ("cmp", "eq", T.call("indexof", s_, T.S("x")), T.I(1)), ("cmp", "eq", s_, T.S("x")),
+             ("cmp", "in", s_, T.lst(T.S("x"), T.S("y"))), T.call("contains", s_, T.S("x")),
+             ("cmp", "eq", T.call("concat", s_, T.S("x")), u_), ("bool", "or", ("cmp", "gt", a_, T.I(1)), ("cmp", "eq", s_, T.S("x"))),
+             ("cmp", "eq", ("bin", "sub", T.I(1), T.I(2)), a_), ("un", "not", ("cmp", "ge", a_, T.I(1)))]
+    k = 0
+    for mag in range(1, len(INT_BASES)):
+        for t in skels:
+            for b in BACKENDS:
+                k += 1
+                if ctx.mine(k):
+                    judge(ctx, t, "T", b, "magnitude-%d" % mag, mag)
+                    ctx.cls("value-magnitude:%d" % mag)
     n = ctx.pick(260, 5000)
     for i in range(n):
         if ctx.out_of_time():
@@ -340,4 +364,4 @@ def replay(ctx, case):
     django_env.setup()
     sqla_env.engine()
     t = drive.parse_term(case["skeleton"])[1]
-    judge(ctx, t, case["model"], case["backend"], "replay")
+    judge(ctx, t, case["model"], case["backend"], "replay", case.get("mag", 0))
